@@ -31,7 +31,42 @@ pub fn def() -> PropDef {
         block: 3,
         flavours: &["tokio", "asyncstd", "smol"],
         outcome: Some(outcome),
-        extra_profiles: &[],
+        // thorough tier: half of the runs are other properties' (schedule-dependent) programs on all
+        // three runtimes; they cannot be compared record by record, but every runtime must satisfy
+        // the reference oracles on them
+        extra_profiles: &["C01", "C03", "C04", "C05", "C07", "C10", "C12", "C13", "C17"],
+        adapt: Some(adapt),
+    }
+}
+
+/// The runtimes differ, by design, in how a panicking or externally cancelled task is reported
+/// to its joiner (and the property is about spawning, detaching, joining, stopping and timers):
+/// on the async-std and smol builds those two fault kinds are taken out of foreign scenarios.
+fn adapt(sc: &mut Scenario) {
+    if FLAVOUR == "tokio" {
+        return;
+    }
+    sc.faults.retain(|f| matches!(f.kind, FaultKind::StartErr { .. }));
+    fn clean(w: &mut Vec<Work>) {
+        w.retain(|x| !matches!(x, Work::Panic));
+    }
+    fn clean_op(o: &mut Op) {
+        match o {
+            Op::Send { work, .. } | Op::ForceSend { work, .. } | Op::Call { work, .. } => clean(work),
+            Op::CancelAfter { op, .. } => clean_op(op),
+            _ => {}
+        }
+    }
+    for a in sc.actors.iter_mut() {
+        clean(&mut a.on_start);
+    }
+    for o in sc.setup.iter_mut() {
+        clean_op(o);
+    }
+    for c in sc.clients.iter_mut() {
+        for o in c.ops.iter_mut() {
+            clean_op(o);
+        }
     }
 }
 
@@ -214,6 +249,9 @@ pub fn generate(g: &mut G, index: u64) -> Scenario {
 }
 
 fn entry_of(v: &View) -> String {
+    if !(v.sc.profile.is_empty() || v.sc.profile == P) {
+        return format!("profile-{}", v.sc.profile);
+    }
     match v.sc.clients[0].ops.first() {
         Some(Op::Spawn { .. }) => format!("{:?}", v.sc.actors[0].entry),
         Some(Op::FromRegistry { .. }) => "from_registry".into(),
@@ -266,8 +304,9 @@ pub fn check(v: &View) -> Vec<Violation> {
     if entry == "from_registry" || entry == "setup" || v.sc.actors[0].entry == Entry::BuilderRegister {
         crate::log::probe("c18_registry_entry");
     }
+    let own_profile = v.sc.profile.is_empty() || v.sc.profile == P;
     // every spawn entry point yields an actor that keeps running after the call has returned
-    for (i, o) in v.ops.iter().enumerate() {
+    for (i, o) in v.ops.iter().enumerate().filter(|_| own_profile) {
         let spawned = matches!((o.inner, o.res), (Op::Spawn { .. }, Some(Res::Spawned { .. })) | (Op::FromRegistry { .. }, Some(Res::Handle(true))));
         if !spawned {
             continue;
@@ -294,7 +333,7 @@ pub fn check(v: &View) -> Vec<Violation> {
     }
     // dropping an OwningAddr is not a stop request: the actor goes on as long as other handles exist
     let prog = &v.sc.clients[0].ops;
-    if prog.iter().any(|o| matches!(o, Op::ToAddr { .. })) && prog.iter().any(|o| matches!(o, Op::Drop { h: 0 })) {
+    if own_profile && prog.iter().any(|o| matches!(o, Op::ToAddr { .. })) && prog.iter().any(|o| matches!(o, Op::Drop { h: 0 })) {
         crate::log::probe("c18_owning_dropped");
         if let Some(c) = v.ops.iter().find(|o| matches!(o.inner, Op::Call { h: 1, .. })) {
             if !matches!(c.res, Some(Res::Reply(_))) {
@@ -308,27 +347,35 @@ pub fn check(v: &View) -> Vec<Violation> {
             out.push(violation(P, "actor-task-cancelled-by-handle-drop", &sig, format!("[{FLAVOUR}] actor {:?}: its task was cancelled because a task handle was dropped (entry {entry})", a.aidx)));
         }
     }
-    // the reference oracles hold on this runtime as they do on the others
+    // the reference oracles hold on this runtime as they do on the others (each oracle on the
+    // profiles it is sound on: its own and its `extra_profiles`)
     let relabel = |x: Violation, out: &mut Vec<Violation>, from: &str| {
         out.push(violation(P, &format!("{from}-{}", x.rule), &sig, format!("[{FLAVOUR}] {}", x.detail)));
     };
-    for x in super::c02::check(v) {
-        relabel(x, &mut out, "c02");
-    }
-    for x in super::c03::check(v) {
-        relabel(x, &mut out, "c03");
-    }
-    for x in super::c04::check(v) {
-        relabel(x, &mut out, "c04");
-    }
-    for x in super::c17::check(v) {
-        relabel(x, &mut out, "c17");
-    }
-    for x in super::c10::check(v) {
-        relabel(x, &mut out, "c10");
-    }
-    for x in super::c05::check(v) {
-        relabel(x, &mut out, "c05");
+    let profile = v.sc.profile.as_str();
+    let own = profile.is_empty() || profile == P;
+    for (name, def) in [
+        ("c01", super::c01::def()),
+        ("c02", super::c02::def()),
+        ("c03", super::c03::def()),
+        ("c04", super::c04::def()),
+        ("c05", super::c05::def()),
+        ("c07", super::c07::def()),
+        ("c10", super::c10::def()),
+        ("c12", super::c12::def()),
+        ("c13", super::c13::def()),
+        ("c17", super::c17::def()),
+    ] {
+        let applies = if own {
+            matches!(name, "c02" | "c03" | "c04" | "c05" | "c10" | "c17")
+        } else {
+            def.id == profile || def.extra_profiles.contains(&profile)
+        };
+        if applies {
+            for x in (def.check)(v) {
+                relabel(x, &mut out, name);
+            }
+        }
     }
     out
 }
